@@ -225,6 +225,8 @@ def enumerate_faults(case, info, stats, errnos=(22, 17)):
                           f'fault:{pl["phase"]}:{pl["side"]}', f'errno:{pl["errno"]}'],
                    sample={'fault': pl, 'ops': case['ops'][:10]} if finfo['fault_reached'] else None)
         for f in fails:
+            if common.KNOWN.is_open('C10', f.sig):
+                continue                      # a listed open finding stays under its own signature (it is not caused by the fault)
             f.sig = 'fault:' + f.sig
             f.text = f'with NEWSA #{pl["k"]} ({pl["phase"]}) refused at {pl["side"]} (errno {pl["errno"]}): ' + f.text
             f.case = {'case': case, 'fault': pl}
